@@ -722,6 +722,19 @@ pub fn det(args: &[String]) -> Value {
             }
             t
         }) else { continue };
+        // a refused program refused again: the two error VALUES compare equal (Error: PartialEq), whatever the
+        // order in which the types they carry print their members
+        {
+            let interp = Interpreter::without_stdlib();
+            let e1 = catch(|| Code::parse(&interp, &text).err());
+            let e2 = catch(|| Code::parse(&interp, &text).err());
+            if let (Ok(Some(a)), Ok(Some(b))) = (e1, e2) {
+                if a != b {
+                    writeln!(out, "{}", json!({"id": case["id"], "run": format!("{tag}errors-differ"), "outcome": format!("error values differ: {a:?} / {b:?}"),
+                        "o": {"parse": "error values differ"}})).unwrap();
+                }
+            }
+        }
         for rep in 0..k {
             let r = run_program(&text, case["std"].as_bool().unwrap_or(false), fuel, None, &[]);
             if r.status == "budget" {
